@@ -126,6 +126,9 @@ def test_values():
     check("NUMBER(38,37) canary digits", str(v["full_scale_digits"]), "1.2345678901234567890123456789012345678")
     v = dict(M.values_for(T("NUMBER(20)")))
     check("NUMBER(20) max", v["max_precision"], 99999999999999999999)
+    check("NUMBER(10,0) holds only what 10 digits can", [k for k, _ in M.values_for(T("NUMBER(10,0)"))],
+          ["zero", "one", "neg_one", "over_int32", "under_int32", "max_precision", "min_precision"])
+    check("NUMBER(10,0) max", dict(M.values_for(T("NUMBER(10,0)")))["max_precision"], 9999999999)
     v = dict(M.values_for(T("INT")))
     check("INT holds 38 digits", v["max_precision"], 10**38 - 1)
     check("int64 edges", (v["int64_max"], v["int64_min"], v["over_int64"], v["over_uint64"]), (2**63 - 1, -(2**63), 2**63, 2**64 + 1))
